@@ -735,3 +735,17 @@ def run(ctx):
     ctx.extra["correspondence_documents"] = len(docs)
     if not built:
         ctx.obligations_failed("round trip, re-serialisation, legacy codec and upgrade executed on %d generated trees" % (n_small + n_big))
+
+
+def replay(ctx, data):
+    """re-run the statement on the recorded tree (rebuilt field by field, no attach step)"""
+    rp = data["replay"]
+    print(json.dumps({k: v for k, v in rp.items() if k not in ("tree", "reloaded", "expected")}, indent=1, ensure_ascii=True)[:3000])
+    to_20210209, _ = load_converter()
+    if "tree" in rp:
+        NL.reset_store()
+        root = NL.build(rp["tree"], attach=False)
+        statement_checks(ctx, root, rp.get("history", []), to_20210209, "replay")
+        NL.reset_store()
+    else:
+        run(ctx)
